@@ -12,11 +12,23 @@ import (
 
 type party struct {
 	thr  multiparty.Thresholdizer
-	cmb  multiparty.Combiner
+	cmb  [2]multiparty.Combiner // [0]: own point listed among `others`, [1]: not listed
 	sk   *rlwe.SecretKey
 	gen  multiparty.ShamirPolynomial
 	tsks multiparty.ShamirSecretShare // aggregated t-out-of-N share
 	pt   multiparty.ShamirPublicPoint
+	out  *rlwe.SecretKey // re-used receiver of GenAdditiveShare (ReuseOut)
+}
+
+func isPermOf(l []int, n int, full bool) bool {
+	seen := map[int]bool{}
+	for _, v := range l {
+		if v < 0 || v >= n || seen[v] {
+			return false
+		}
+		seen[v] = true
+	}
+	return !full || len(l) == n
 }
 
 func validCase(c Case) error {
@@ -26,31 +38,13 @@ func validCase(c Case) error {
 	if !pointsAdmissible(c.Points, c.moduli()) {
 		return fmt.Errorf("points not distinct modulo every prime")
 	}
-	isPerm := func(l []int, full bool) bool {
-		seen := map[int]bool{}
-		for _, v := range l {
-			if v < 0 || v >= c.N || seen[v] {
-				return false
-			}
-			seen[v] = true
-		}
-		return !full || len(l) == c.N
-	}
 	for i := 0; i < c.N; i++ {
-		if !isPerm(c.AggOrder[i], true) || !isPerm(c.Others[i], false) {
+		if !isPermOf(c.AggOrder[i], c.N, true) || !isPermOf(c.Others[i], c.N, true) {
 			return fmt.Errorf("malformed orders")
-		}
-		// others must cover every party except possibly i itself
-		seen := map[int]bool{i: true}
-		for _, v := range c.Others[i] {
-			seen[v] = true
-		}
-		if len(seen) != c.N {
-			return fmt.Errorf("others incomplete")
 		}
 	}
 	for _, l := range c.Lists {
-		if len(l) != c.T || !isPerm(l, false) {
+		if len(l) != c.T || !isPermOf(l, c.N, false) {
 			return fmt.Errorf("malformed list")
 		}
 	}
@@ -58,43 +52,67 @@ func validCase(c Case) error {
 		return fmt.Errorf("malformed short lists")
 	}
 	for k, l := range c.Short {
-		if len(l) >= c.T || !isPerm(l, false) || c.ShortOwner[k] < 0 || c.ShortOwner[k] >= c.N {
+		if len(l) >= c.T || !isPermOf(l, c.N, false) || c.ShortOwner[k] < 0 || c.ShortOwner[k] >= c.N {
 			return fmt.Errorf("malformed short list")
 		}
 	}
 	return nil
 }
 
-func ptsOf(c Case, l []int) []multiparty.ShamirPublicPoint {
+func ptsOfPoints(points []uint64, l []int) []multiparty.ShamirPublicPoint {
 	out := make([]multiparty.ShamirPublicPoint, len(l))
 	for i, v := range l {
-		out[i] = multiparty.ShamirPublicPoint(c.Points[v])
+		out[i] = multiparty.ShamirPublicPoint(points[v])
 	}
 	return out
 }
 
-func runCase(c Case, rec *h.Rec) error {
-	if err := validCase(c); err != nil {
-		return fmt.Errorf("bad case: %v", err)
-	}
-	params, err := c.Params.Build()
-	if err != nil {
-		return fmt.Errorf("bad case: parameters: %v", err)
-	}
-	qs := c.moduli()
-	ringQP := params.RingQP()
-	n := params.N()
+func ptsOf(c Case, l []int) []multiparty.ShamirPublicPoint { return ptsOfPoints(c.Points, l) }
 
-	// ---- parties and their secrets --------------------------------------------------------------------------
-	kgen := rlwe.NewKeyGenerator(params)
-	rng := h.NewSplitMix(c.Seed ^ 0xc15)
-	P := make([]*party, c.N)
-	secrets := make([]vec, c.N)
-	ideal := newVec(qs, n)
-	for i := range P {
-		p := &party{thr: multiparty.NewThresholdizer(params), pt: multiparty.ShamirPublicPoint(c.Points[i])}
+func samePts(a, b []multiparty.ShamirPublicPoint) bool {
+	if len(a) != len(b) {
+		return false
+	}
+	for i := range a {
+		if a[i] != b[i] {
+			return false
+		}
+	}
+	return true
+}
+
+func without(l []int, x int) []int {
+	var o []int
+	for _, v := range l {
+		if v != x {
+			o = append(o, v)
+		}
+	}
+	return o
+}
+
+// world is one threshold deployment: long-lived protocol objects plus the reference values of the current epoch.
+type world struct {
+	c       Case
+	params  rlwe.Parameters
+	qs      []uint64
+	n       int
+	P       []*party
+	secrets []vec
+	ideal   vec
+	expAgg  []vec
+}
+
+// setup runs one epoch of the threshold secret-key generation with the parties' long-lived Thresholdizers and checks
+// every intermediate object against the reference arithmetic.
+func (w *world) setup(epoch int, rng *h.SplitMix, kgen *rlwe.KeyGenerator) error {
+	c, qs, n, P := w.c, w.qs, w.n, w.P
+	var err error
+	w.secrets = make([]vec, c.N)
+	w.ideal = newVec(qs, n)
+	for i, p := range P {
 		if c.Secret == "uniform" {
-			p.sk = rlwe.NewSecretKey(params)
+			p.sk = rlwe.NewSecretKey(w.params)
 			for l, row := range p.sk.Value.Q.Coeffs {
 				for j := range row {
 					row[j] = rng.Uint64() % qs[l]
@@ -108,24 +126,19 @@ func runCase(c Case, rec *h.Rec) error {
 		} else {
 			p.sk = kgen.GenSecretKeyNew()
 		}
-		secrets[i] = fromPoly(p.sk.Value, qs)
-		if len(secrets[i]) != len(qs) {
-			return fmt.Errorf("bad case: secret key has %d limbs, chain has %d", len(secrets[i]), len(qs))
+		w.secrets[i] = fromPoly(p.sk.Value, qs)
+		if len(w.secrets[i]) != len(qs) {
+			return fmt.Errorf("bad case: secret key has %d limbs, chain has %d", len(w.secrets[i]), len(qs))
 		}
-		ideal = ideal.add(secrets[i], qs)
-		p.tsks = p.thr.AllocateThresholdSecretShare()
-		P[i] = p
-	}
-	for i, p := range P {
-		p.cmb = multiparty.NewCombiner(params, p.pt, ptsOf(c, c.Others[i]), c.T)
+		w.ideal = w.ideal.add(w.secrets[i], qs)
 	}
 
-	// ---- setup: Shamir polynomials, shares, aggregation ------------------------------------------------------
-	expAgg := make([]vec, c.N) // reference aggregated share of recipient j
-	for j := range expAgg {
-		expAgg[j] = newVec(qs, n)
+	w.expAgg = make([]vec, c.N) // reference aggregated share of recipient j
+	for j := range w.expAgg {
+		w.expAgg[j] = newVec(qs, n)
 	}
 	shares := make([][]multiparty.ShamirSecretShare, c.N) // [sender][recipient]
+	wantShare := make([][]vec, c.N)
 	for i, p := range P {
 		p.gen, err = p.thr.GenShamirPolynomial(c.T, p.sk)
 		if err != nil {
@@ -138,10 +151,10 @@ func runCase(c Case, rec *h.Rec) error {
 		for k := range coeffs {
 			coeffs[k] = fromPoly(p.gen.Value[k], qs)
 		}
-		if l, idx, ok := coeffs[0].diff(secrets[i]); !ok {
-			return h.Failf("C15:GenShamirPolynomial:constant-term", "constant term differs from the secret at limb %d coeff %d", l, idx)
+		if l, idx, ok := coeffs[0].diff(w.secrets[i]); !ok {
+			return h.Failf("C15:GenShamirPolynomial:constant-term", "epoch %d: constant term differs from the secret at limb %d coeff %d", epoch, l, idx)
 		}
-		if l, idx, ok := fromPoly(p.sk.Value, qs).diff(secrets[i]); !ok {
+		if l, idx, ok := fromPoly(p.sk.Value, qs).diff(w.secrets[i]); !ok {
 			return h.Failf("C15:GenShamirPolynomial:secret-modified", "the caller's secret key was modified at limb %d coeff %d", l, idx)
 		}
 		// "fewer cannot": the polynomial must really have degree t-1 in every CRT component, otherwise t-1 shares
@@ -149,19 +162,25 @@ func runCase(c Case, rec *h.Rec) error {
 		for k := 1; k < c.T; k++ {
 			for l := range qs {
 				if coeffs[k].isZeroLimb(l) {
-					return h.Failf("C15:GenShamirPolynomial:degenerate", "coefficient %d of the Shamir polynomial of party %d is identically zero modulo q[%d]=%d", k, i, l, qs[l])
+					return h.Failf("C15:GenShamirPolynomial:degenerate", "epoch %d: coefficient %d of the Shamir polynomial of party %d is identically zero modulo q[%d]=%d", epoch, k, i, l, qs[l])
 				}
 			}
 		}
 		shares[i] = make([]multiparty.ShamirSecretShare, c.N)
+		wantShare[i] = make([]vec, c.N)
+		reused := p.thr.AllocateThresholdSecretShare() // receiver with an earlier life (previous recipient's share)
 		for j, pj := range P {
 			sh := p.thr.AllocateThresholdSecretShare()
+			if c.ReuseOut {
+				sh = reused
+			}
 			p.thr.GenShamirSecretShare(pj.pt, p.gen, &sh)
 			want := horner(coeffs, c.Points[j], qs)
 			if l, idx, ok := fromPoly(sh.Poly, qs).diff(want); !ok {
-				return h.Failf("C15:GenShamirSecretShare:value", "share of party %d for point %d differs from the polynomial evaluated at the point (limb %d, q=%d, coeff %d)", i, c.Points[j], l, qs[l], idx)
+				return h.Failf("C15:GenShamirSecretShare:value", "epoch %d: share of party %d for point %d differs from the polynomial evaluated at the point (limb %d, q=%d, coeff %d)", epoch, i, c.Points[j], l, qs[l], idx)
 			}
-			expAgg[j] = expAgg[j].add(want, qs)
+			wantShare[i][j] = want
+			w.expAgg[j] = w.expAgg[j].add(want, qs)
 			if c.Serial {
 				b, err := sh.MarshalBinary()
 				if err != nil {
@@ -172,6 +191,8 @@ func runCase(c Case, rec *h.Rec) error {
 					return h.Failf("C15:ShamirSecretShare:unmarshal", "%v", err)
 				}
 				sh = sh2
+			} else if c.ReuseOut {
+				sh = multiparty.ShamirSecretShare{Poly: *sh.Poly.CopyNew()}
 			}
 			shares[i][j] = sh
 		}
@@ -184,15 +205,32 @@ func runCase(c Case, rec *h.Rec) error {
 	}
 	for j, pj := range P {
 		order := c.AggOrder[j]
-		switch c.AggMode[j] {
+		mode := c.AggMode[j]
+		rest := order
+		if epoch == 0 {
+			if mode != 2 {
+				pj.tsks = pj.thr.AllocateThresholdSecretShare()
+			}
+		} else if mode != 2 {
+			// the receiver still holds the previous epoch's aggregate: the first call must overwrite it completely
+			if len(order) >= 2 {
+				if err = pj.thr.AggregateShares(shares[order[0]][j], shares[order[1]][j], &pj.tsks); err != nil {
+					return h.Failf("C15:AggregateShares:error", "%v", err)
+				}
+				rest = order[2:]
+			} else {
+				pj.tsks = pj.thr.AllocateThresholdSecretShare()
+			}
+		}
+		switch mode {
 		case 0:
-			for _, i := range order {
+			for _, i := range rest {
 				if err = pj.thr.AggregateShares(pj.tsks, shares[i][j], &pj.tsks); err != nil {
 					return h.Failf("C15:AggregateShares:error", "%v", err)
 				}
 			}
 		case 1:
-			for _, i := range order {
+			for _, i := range rest {
 				if err = pj.thr.AggregateShares(shares[i][j], pj.tsks, &pj.tsks); err != nil {
 					return h.Failf("C15:AggregateShares:error", "%v", err)
 				}
@@ -201,6 +239,9 @@ func runCase(c Case, rec *h.Rec) error {
 			cur := make([]multiparty.ShamirSecretShare, len(order))
 			for k, i := range order {
 				cur[k] = shares[i][j]
+			}
+			if len(cur) == 1 {
+				cur[0] = multiparty.ShamirSecretShare{Poly: *cur[0].Poly.CopyNew()}
 			}
 			for len(cur) > 1 {
 				var next []multiparty.ShamirSecretShare
@@ -216,98 +257,204 @@ func runCase(c Case, rec *h.Rec) error {
 				}
 				cur = next
 			}
-			pj.tsks = cur[0]
+			pj.tsks = multiparty.ShamirSecretShare{Poly: *cur[0].Poly.CopyNew()}
 		}
-		if l, idx, ok := fromPoly(pj.tsks.Poly, qs).diff(expAgg[j]); !ok {
-			return h.Failf("C15:AggregateShares:value", "aggregated share of party %d (mode %d, order %v) differs from the sum of the received shares (limb %d coeff %d)", j, c.AggMode[j], order, l, idx)
+		if l, idx, ok := fromPoly(pj.tsks.Poly, qs).diff(w.expAgg[j]); !ok {
+			return h.Failf("C15:AggregateShares:value", "epoch %d: aggregated share of party %d (mode %d, order %v) differs from the sum of the received shares (limb %d coeff %d)", epoch, j, mode, order, l, idx)
 		}
 	}
+	// the received shares are inputs of the aggregation: they must be intact
+	for i := range shares {
+		for j := range shares[i] {
+			if _, _, ok := fromPoly(shares[i][j].Poly, qs).diff(wantShare[i][j]); !ok {
+				return h.Failf("C15:AggregateShares:input-modified", "epoch %d: the share of party %d for party %d was modified by the aggregation (mode %d)", epoch, i, j, c.AggMode[j])
+			}
+		}
+	}
+	return nil
+}
 
-	// ---- requests ---------------------------------------------------------------------------------------------
-	short := func() error {
-		for k, l := range c.Short {
-			own := c.ShortOwner[k]
-			out := rlwe.NewSecretKey(params)
-			var act []multiparty.ShamirPublicPoint
-			if len(l) > 0 || k%2 == 0 { // also exercises the nil slice
-				act = ptsOf(c, l)
-			}
-			if err := P[own].cmb.GenAdditiveShare(act, P[own].pt, P[own].tsks, out); err == nil {
-				return h.Failf("C15:GenAdditiveShare:too-few-accepted", "request with %d active parties accepted, threshold is %d", len(l), c.T)
+// additive derives the additive share of party j for the active list l (points act) with the party's combiner number
+// which, into a fresh or the party's re-used receiver.
+func (w *world) additive(j, which int, act []multiparty.ShamirPublicPoint) (vec, *rlwe.SecretKey, error) {
+	p := w.P[j]
+	out := p.out
+	if !w.c.ReuseOut || out == nil {
+		out = rlwe.NewSecretKey(w.params)
+	}
+	in := append([]multiparty.ShamirPublicPoint(nil), act...)
+	if err := p.cmb[which].GenAdditiveShare(in, p.pt, p.tsks, out); err != nil {
+		return nil, nil, err
+	}
+	if !samePts(in, act) {
+		return nil, nil, h.Failf("C15:GenAdditiveShare:actives-modified", "the list of active points was modified by GenAdditiveShare")
+	}
+	return fromPoly(out.Value, w.qs), out, nil
+}
+
+func (w *world) short() error {
+	c, P := w.c, w.P
+	for k, l := range c.Short {
+		own := c.ShortOwner[k]
+		out := rlwe.NewSecretKey(w.params)
+		var act []multiparty.ShamirPublicPoint
+		if len(l) > 0 || k%2 == 0 { // also exercises the nil slice
+			act = ptsOf(c, l)
+		}
+		for which := 0; which < 2; which++ {
+			if err := P[own].cmb[which].GenAdditiveShare(act, P[own].pt, P[own].tsks, out); err == nil {
+				return h.Failf("C15:GenAdditiveShare:too-few-accepted", "request with %d active parties accepted, threshold is %d (combiner built %s its own point)", len(l), c.T, []string{"with", "without"}[which])
 			}
 		}
-		return nil
 	}
-	if c.ShortFirst {
-		if err := short(); err != nil {
-			return err
+	return nil
+}
+
+func runCase(c Case, rec *h.Rec) error {
+	if err := validCase(c); err != nil {
+		return fmt.Errorf("bad case: %v", err)
+	}
+	params, err := c.Params.Build()
+	if err != nil {
+		return fmt.Errorf("bad case: parameters: %v", err)
+	}
+	qs := c.moduli()
+	ringQP := params.RingQP()
+	n := params.N()
+	w := &world{c: c, params: params, qs: qs, n: n}
+
+	// ---- long-lived objects: one Thresholdizer and two Combiners per party, created once -------------------------
+	kgen := rlwe.NewKeyGenerator(params)
+	rng := h.NewSplitMix(c.Seed ^ 0xc15)
+	w.P = make([]*party, c.N)
+	for i := range w.P {
+		w.P[i] = &party{thr: multiparty.NewThresholdizer(params), pt: multiparty.ShamirPublicPoint(c.Points[i]), out: rlwe.NewSecretKey(params)}
+	}
+	for i, p := range w.P {
+		for which, l := range [][]int{c.Others[i], without(c.Others[i], i)} {
+			others := ptsOf(c, l)
+			snap := append([]multiparty.ShamirPublicPoint(nil), others...)
+			p.cmb[which] = multiparty.NewCombiner(params, p.pt, others, c.T)
+			if !samePts(others, snap) {
+				return h.Failf("C15:NewCombiner:others-modified", "the list of points given to NewCombiner was modified")
+			}
 		}
 	}
+	P := w.P
 
 	lists := c.Lists
 	if c.AllLists {
 		lists = orderedLists(c.N, c.T)
 	}
-	firstShare := map[string]vec{} // (set, party) -> additive share first seen
 	nonIdentity := false
 	sets := map[string]bool{}
 	var conseqShares []*rlwe.SecretKey
-	for li, l := range lists {
-		if !isIdentityPrefix(l) {
-			nonIdentity = true
-		}
-		sk := setKey(l)
-		sets[sk] = true
-		act := ptsOf(c, l)
-		sum := newVec(qs, n)
-		recSk := rlwe.NewSecretKey(params)
-		var outs []vec
-		var keep []*rlwe.SecretKey
-		for _, j := range l {
-			out := rlwe.NewSecretKey(params)
-			if err := P[j].cmb.GenAdditiveShare(act, P[j].pt, P[j].tsks, out); err != nil {
-				return h.Failf("C15:GenAdditiveShare:error", "request with exactly t=%d active parties refused: %v", c.T, err)
-			}
-			v := fromPoly(out.Value, qs)
-			outs = append(outs, v)
-			keep = append(keep, out)
-			sum = sum.add(v, qs)
-			ringQP.Add(out.Value, recSk.Value, recSk.Value) // as lattigo's callers do
-			key := fmt.Sprintf("%s/%d", sk, j)
-			if prev, seen := firstShare[key]; !seen {
-				firstShare[key] = v
-			} else if lb, idx, ok := prev.diff(v); !ok {
-				return h.Failf("C15:GenAdditiveShare:order-dependent", "additive share of party %d for the active set %s differs from the share derived by an earlier request for the same set (depends on the order of listing or on earlier requests; list %v, limb %d coeff %d)", j, sk, l, lb, idx)
-			}
-		}
-		if lb, idx, ok := sum.diff(ideal); !ok {
-			// diagnostics: which party deviates from t-out-of-N share x Lagrange coefficient
-			diag := ""
-			for k, j := range l {
-				want := expAgg[j].mulScalars(lagrangeAtZero(c.Points, l, j, qs), qs)
-				if _, _, same := outs[k].diff(want); !same {
-					diag += fmt.Sprintf(" party %d deviates from share*lagrange;", j)
-				}
-			}
-			return h.Failf("C15:GenAdditiveShare:sum", "N=%d t=%d active list %v (points %v): sum of the additive shares differs from the ideal secret key at limb %d (q=%d) coeff %d: got %d want %d;%s", c.N, c.T, l, act, lb, qs[lb], idx, sum[lb][idx], ideal[lb][idx], diag)
-		}
-		if lb, idx, ok := fromPoly(recSk.Value, qs).diff(ideal); !ok {
-			return h.Failf("C15:GenAdditiveShare:sum-ringqp", "sum of the additive shares by ringQP.Add differs from the ideal secret key at limb %d coeff %d", lb, idx)
-		}
-		if c.Conseq && li == c.ConseqList {
-			conseqShares = keep
-		}
+	epochs := c.Epochs
+	if epochs < 1 {
+		epochs = 1
 	}
-	// the aggregated t-out-of-N shares must not have been modified by the requests
-	for j, pj := range P {
-		if _, _, ok := fromPoly(pj.tsks.Poly, qs).diff(expAgg[j]); !ok {
-			return h.Failf("C15:GenAdditiveShare:input-modified", "aggregated share of party %d was modified by GenAdditiveShare", j)
-		}
-	}
-	if !c.ShortFirst {
-		if err := short(); err != nil {
+
+	for epoch := 0; epoch < epochs; epoch++ {
+		if err := w.setup(epoch, rng, kgen); err != nil {
 			return err
 		}
+		ideal, expAgg := w.ideal, w.expAgg
+
+		if c.ShortFirst {
+			if err := w.short(); err != nil {
+				return err
+			}
+		}
+
+		use := lists
+		if epoch > 0 && len(lists) > 40 {
+			// later epochs: a stride through the lists (the objects already have the full history of epoch 0)
+			use = nil
+			step := len(lists)/40 + 1
+			for k := epoch % step; k < len(lists); k += step {
+				use = append(use, lists[k])
+			}
+		}
+		both := len(use) <= 130          // both combiners for every request, else alternate
+		firstShare := map[string]vec{} // (set, party) -> additive share first seen in this epoch
+		for li, l := range use {
+			if !isIdentityPrefix(l) {
+				nonIdentity = true
+			}
+			sk := setKey(l)
+			sets[sk] = true
+			act := ptsOf(c, l)
+			sum := newVec(qs, n)
+			recSk := rlwe.NewSecretKey(params)
+			var outs []vec
+			var keep []*rlwe.SecretKey
+			for pos, j := range l {
+				which := (li + pos) & 1
+				v, out, err := w.additive(j, which, act)
+				if err != nil {
+					if _, isFail := err.(*h.Failure); isFail {
+						return err
+					}
+					return h.Failf("C15:GenAdditiveShare:error", "request with exactly t=%d active parties refused (combiner built %s its own point): %v", c.T, []string{"with", "without"}[which], err)
+				}
+				if both {
+					v2, _, err := w.additive(j, 1-which, act)
+					if err != nil {
+						if _, isFail := err.(*h.Failure); isFail {
+							return err
+						}
+						return h.Failf("C15:GenAdditiveShare:error", "request with exactly t=%d active parties refused (combiner built %s its own point): %v", c.T, []string{"with", "without"}[1-which], err)
+					}
+					if lb, idx, ok := v.diff(v2); !ok {
+						return h.Failf("C15:GenAdditiveShare:own-point-listed", "N=%d t=%d list %v: the additive share of party %d depends on whether its own point was listed in NewCombiner (limb %d coeff %d)", c.N, c.T, l, j, lb, idx)
+					}
+				}
+				outs = append(outs, v)
+				if c.Conseq && epoch == epochs-1 && li == c.ConseqList%len(use) {
+					keep = append(keep, out.CopyNew())
+				}
+				sum = sum.add(v, qs)
+				ringQP.Add(out.Value, recSk.Value, recSk.Value) // as lattigo's callers do
+				key := fmt.Sprintf("%s/%d", sk, j)
+				if prev, seen := firstShare[key]; !seen {
+					firstShare[key] = v
+				} else if lb, idx, ok := prev.diff(v); !ok {
+					return h.Failf("C15:GenAdditiveShare:order-dependent", "additive share of party %d for the active set %s differs from the share derived by an earlier request for the same set (depends on the order of listing or on earlier requests; list %v, limb %d coeff %d)", j, sk, l, lb, idx)
+				}
+			}
+			if lb, idx, ok := sum.diff(ideal); !ok {
+				// diagnostics: which party deviates from t-out-of-N share x Lagrange coefficient
+				diag := ""
+				for k, j := range l {
+					want := expAgg[j].mulScalars(lagrangeAtZero(c.Points, l, j, qs), qs)
+					if _, _, same := outs[k].diff(want); !same {
+						diag += fmt.Sprintf(" party %d deviates from share*lagrange;", j)
+					}
+				}
+				return h.Failf("C15:GenAdditiveShare:sum", "epoch %d N=%d t=%d active list %v (points %v): sum of the additive shares differs from the ideal secret key at limb %d (q=%d) coeff %d: got %d want %d;%s", epoch, c.N, c.T, l, act, lb, qs[lb], idx, sum[lb][idx], ideal[lb][idx], diag)
+			}
+			if lb, idx, ok := fromPoly(recSk.Value, qs).diff(ideal); !ok {
+				return h.Failf("C15:GenAdditiveShare:sum-ringqp", "sum of the additive shares by ringQP.Add differs from the ideal secret key at limb %d coeff %d", lb, idx)
+			}
+			if keep != nil {
+				conseqShares = keep
+			}
+		}
+		// the aggregated t-out-of-N shares must not have been modified by the requests
+		for j, pj := range P {
+			if _, _, ok := fromPoly(pj.tsks.Poly, qs).diff(expAgg[j]); !ok {
+				return h.Failf("C15:GenAdditiveShare:input-modified", "aggregated share of party %d was modified by GenAdditiveShare", j)
+			}
+		}
+		if !c.ShortFirst {
+			if err := w.short(); err != nil {
+				return err
+			}
+		}
+	}
+
+	if c.Probe {
+		w.probes(rec)
 	}
 
 	if c.Conseq && conseqShares != nil {
@@ -337,6 +484,10 @@ func runCase(c Case, rec *h.Rec) error {
 	rec.Classf("lists=%s", mode)
 	rec.Classf("secret=%s", c.Secret)
 	rec.Classf("limbs=%d+%d", len(c.Params.Q), len(c.Params.P))
+	rec.Classf("epochs=%d", epochs)
+	if c.ReuseOut {
+		rec.Class("receivers=re-used")
+	}
 	if c.Params.CI {
 		rec.Class("ring=ci")
 	}
@@ -367,9 +518,69 @@ func runCase(c Case, rec *h.Rec) error {
 	rec.Note("ordered_lists", len(lists))
 	rec.Note("active_sets", len(sets))
 	if (c.T < c.N && nonIdentity) || big {
-		rec.NonTrivial(fmt.Sprintf("N=%d t=%d pts=%s big=%v lists=%s secret=%s limbs=%d+%d ci=%v logN=%d serial=%v conseq=%v", c.N, c.T, c.PointClass, big, mode, c.Secret, len(c.Params.Q), len(c.Params.P), c.Params.CI, c.Params.LogN, c.Serial, c.Conseq))
+		rec.NonTrivial(fmt.Sprintf("N=%d t=%d pts=%s big=%v lists=%s secret=%s limbs=%d+%d ci=%v logN=%d serial=%v conseq=%v evk=%v epochs=%d reuse=%v", c.N, c.T, c.PointClass, big, mode, c.Secret, len(c.Params.Q), len(c.Params.P), c.Params.CI, c.Params.LogN, c.Serial, c.Conseq, c.Conseq && c.Evk, epochs, c.ReuseOut))
 	}
 	return nil
+}
+
+// probes records (without judging) how the Combiner treats requests the property statement does not cover: an active
+// point that was never given to NewCombiner, and lists with more than t entries (the statement says "exactly t").
+func (w *world) probes(rec *h.Rec) {
+	c, P := w.c, w.P
+	outcome := func(f func() error) (res string) {
+		defer func() {
+			if r := recover(); r != nil {
+				res = "panic"
+			}
+		}()
+		if err := f(); err != nil {
+			return "error"
+		}
+		return "accepted"
+	}
+	// unknown point: admissible (non-zero, distinct from every party modulo every prime) but never listed
+	if c.T >= 2 {
+		pts := append([]uint64(nil), c.Points...)
+		pts = append(pts, 0)
+		for pts[c.N]++; !pointsAdmissible(pts, w.qs); pts[c.N]++ {
+		}
+		l := make([]int, c.T)
+		for i := range l {
+			l[i] = i
+		}
+		act := ptsOfPoints(pts, l)
+		act[c.T-1] = multiparty.ShamirPublicPoint(pts[c.N])
+		out := rlwe.NewSecretKey(w.params)
+		rec.Class("probe:unlisted-active-point=" + outcome(func() error { return P[0].cmb[0].GenAdditiveShare(act, P[0].pt, P[0].tsks, out) }))
+	}
+	// longer list: all N parties listed although t < N
+	if c.T < c.N {
+		all := make([]int, c.N)
+		for i := range all {
+			all[i] = i
+		}
+		act := ptsOf(c, all)
+		for _, j := range []int{0, c.N - 1} { // party 0 is among the first t, party N-1 is not
+			out := rlwe.NewSecretKey(w.params)
+			res := outcome(func() error { return P[j].cmb[0].GenAdditiveShare(act, P[j].pt, P[j].tsks, out) })
+			if res == "accepted" {
+				want := w.expAgg[j].mulScalars(lagrangeAtZero(c.Points, all[:c.T], j, w.qs), w.qs)
+				if j >= c.T {
+					want = w.expAgg[j].mulScalars(lagrangeAtZero(c.Points, append(append([]int(nil), all[:c.T]...), j), j, w.qs), w.qs)
+				}
+				if _, _, ok := fromPoly(out.Value, w.qs).diff(want); ok {
+					res += ",share=lagrange-over-first-t"
+				} else {
+					res += ",share=other"
+				}
+			}
+			where := "caller-in-first-t"
+			if j >= c.T {
+				where = "caller-not-in-first-t"
+			}
+			rec.Class("probe:longer-list," + where + "=" + res)
+		}
+	}
 }
 
 var propThreshold = h.NewProp("TestPropThreshold", h.Budget{Quick: 10000, Thorough: 240000}, genCase, runCase)
